@@ -36,8 +36,8 @@ Print Assumptions c08_dirty_covers_buf.
    Witness: A logs and flushes, C logs, A clears the flag, C reads false and acknowledges. *)
 Theorem c08_refuted :
   exists progs sched c,
-    In c (acked (run_sched (mkVariant false true false true true) progs sched)) /\
-    ~ In c (file (run_sched (mkVariant false true false true true) progs sched)).
+    In c (acked (run_sched (mkVariant false true false true true false) progs sched)) /\
+    ~ In c (file (run_sched (mkVariant false true false true true false) progs sched)).
 Proof. exact store_after_unlock_refuted. Qed.
 Print Assumptions c08_refuted.
 
@@ -45,8 +45,8 @@ Print Assumptions c08_refuted.
    client.out without the pre-write; one connection suffices (SET ... and SUBSCRIBE in one packet). *)
 Theorem c08_detach_refuted :
   exists progs sched c,
-    In c (acked (run_sched (mkVariant true false false true true) progs sched)) /\
-    ~ In c (file (run_sched (mkVariant true false false true true) progs sched)).
+    In c (acked (run_sched (mkVariant true false false true true false) progs sched)) /\
+    ~ In c (file (run_sched (mkVariant true false false true true false) progs sched)).
 Proof. exact detach_no_prewrite_refuted. Qed.
 Print Assumptions c08_detach_refuted.
 
@@ -54,8 +54,8 @@ Print Assumptions c08_detach_refuted.
    seeded change): the background flusher consuming the flag before it holds the lock ... *)
 Theorem c08_flusher_swap_refuted :
   exists progs sched c,
-    In c (acked (run_sched (mkVariant true true true true true) progs sched)) /\
-    ~ In c (file (run_sched (mkVariant true true true true true) progs sched)).
+    In c (acked (run_sched (mkVariant true true true true true false) progs sched)) /\
+    ~ In c (file (run_sched (mkVariant true true true true true false) progs sched)).
 Proof. exact flusher_swap_refuted. Qed.
 Print Assumptions c08_flusher_swap_refuted.
 
@@ -63,8 +63,8 @@ Print Assumptions c08_flusher_swap_refuted.
    by a Lua script (scripts.go calls writeAOF itself) is acknowledged with the flag clear. *)
 Theorem c08_flag_in_dispatcher_refuted :
   exists progs sched c,
-    In c (acked (run_sched (mkVariant true true false false true) progs sched)) /\
-    ~ In c (file (run_sched (mkVariant true true false false true) progs sched)).
+    In c (acked (run_sched (mkVariant true true false false true false) progs sched)) /\
+    ~ In c (file (run_sched (mkVariant true true false false true false) progs sched)).
 Proof. exact flag_in_dispatcher_refuted. Qed.
 Print Assumptions c08_flag_in_dispatcher_refuted.
 
@@ -73,10 +73,20 @@ Print Assumptions c08_flag_in_dispatcher_refuted.
    between A's unlock and A's clear. *)
 Theorem c08_detach_store_unlocked_refuted :
   exists progs sched c,
-    In c (acked (run_sched (mkVariant true true false true false) progs sched)) /\
-    ~ In c (file (run_sched (mkVariant true true false true false) progs sched)).
+    In c (acked (run_sched (mkVariant true true false true false false) progs sched)) /\
+    ~ In c (file (run_sched (mkVariant true true false true false false) progs sched)).
 Proof. exact detach_store_unlocked_refuted. Qed.
 Print Assumptions c08_detach_store_unlocked_refuted.
+
+(* ... and the background flusher clearing the flag unconditionally at the start of every round, before
+   it takes the lock: after one (empty) round, B logs while the flusher sleeps; the next round's store
+   clears the flag over B's buffered command; B tests the flag, skips its flush and replies. *)
+Theorem c08_flusher_store_refuted :
+  exists progs sched c,
+    In c (acked (run_sched (mkVariant true true false true true true) progs sched)) /\
+    ~ In c (file (run_sched (mkVariant true true false true true true) progs sched)).
+Proof. exact flusher_store_refuted. Qed.
+Print Assumptions c08_flusher_store_refuted.
 
 (* non-vacuity: a schedule of the repaired order in which both commands are acknowledged (and flushed) *)
 Example c08_nonvacuous :
